@@ -31,6 +31,15 @@ BQ_MORE = ['bq_from_slice_len_2', 'bq_from_slice_len_7', 'bq_from_slice_len_8', 
 NODE_ID = ['node_id_to_bytes_contract', 'node_id_roundtrip_via_contract', 'node_id_from_bytes_reference_layout', 'node_mode_try_from_all_codes']
 
 PROPS = {
+    'C01': {
+        'verus': {'forest_lib': None,
+                  'tree_delete': ['Writer::delete_items_in_file', 'Writer::fit_in_descendant', 'lemma_del_common', 'lemma_del_fit', 'lemma_del_one_side_empty', 'lemma_del_keep'],
+                  'writer_scans': ['Writer::item_indices', 'Writer::reset_and_retrieve_updated_items', 'Writer::clear_db_and_create_a_single_leaf', 'clear_tree_nodes']},
+        'assumed_fns': [('src/parallel.rs', "impl<'a, DE: BytesEncode<'a>> TmpNodes<DE>", 'put'), ('src/parallel.rs', "impl<'a, DE: BytesEncode<'a>> TmpNodes<DE>", 'remove'),
+                        ('src/parallel.rs', "impl<'a, DE: BytesEncode<'a>> TmpNodes<DE>", 'remap'), ('src/parallel.rs', 'impl TmpNodesReader', 'to_insert'),
+                        ('src/parallel.rs', 'impl TmpNodesReader', 'to_delete')],
+        'not_decided': [],
+    },
     'C03': {
         'verus': {'reader_search': ['Reader::nns', 'Reader::nns_by_leaf', 'NodeId::unwrap_item'],
                   'reader_open': ['QueryBuilder::by_vector', 'QueryBuilder::by_item', 'item_leaf', 'Reader::dimensions']},
